@@ -96,9 +96,10 @@ theorem join_row {a0 : Expr} {rest : List Expr} {kv : Pair} {c c0 c1 : Ctx} {sep
     rowBody .join (a0 :: rest) kv c = (.ok (.str (joinBytes (toStringV sep) (vals.map toStringV))), c1) :=
   row_join t0 h0 h1
 
-/-- join / list / int_list / float_list in batch ARE the row body applied pair by pair -/
+/-- join / list / int_list / float_list in batch ARE the row body applied pair by pair (with a nil
+    context: the chunk's context is neither read nor written) -/
 theorem rowwise_vec (b : Body) (hb : b = .join ∨ b = .toList ∨ b = .intList ∨ b = .floatList)
-    (args : List Expr) (chunk : List Pair) : vecBody b args chunk = forPairs (rowBody b args) chunk :=
+    (args : List Expr) (chunk : List Pair) : vecBody b args chunk = rowWiseNoCtx (rowBody b args) chunk :=
   vec_rowwise b hb args chunk
 
 /-- split and join are mutual inverses: `join(sep, split(s, sep)) = s` for every non-empty separator … -/
